@@ -14,7 +14,7 @@ use bytes::{Bytes, BytesMut};
 use qbase::{
     cid::ConnectionId,
     error::QuicError,
-    frame::{FrameReader, GetFrameType},
+    frame::FrameReader,
     net::addr::EndpointAddr,
     packet::{
         DataHeader, GetDcid, GetScid, Packet, PacketReader,
@@ -295,7 +295,13 @@ fn mux_line(sink: &mut Sink, input: &[u8]) -> Option<Vec<u8>> {
             let mut pkt = BytesMut::from(input);
             let body = pkt.split_off(tpk::StunHeader::encoding_size());
             let v = u16::from_be_bytes([input[7], input[8]]);
-            (format!("stun v={} body={}", v, body.len()), None, None)
+            // deliver_stun_packet: `let Ok((.., (txid, packet))) = be_packet(&pkt) else { return }`
+            let m = match catch(|| qconnection::qtraversal::nat::msg::be_packet(&body).is_ok()) {
+                Ok(true) => "ok".to_string(),
+                Ok(false) => "err".to_string(),
+                Err(msg) => format!("PANIC:{}", site(&msg)),
+            };
+            (format!("stun v={} body={} msg={}", v, body.len(), m), None, None)
         }
         Ok((remain, tpk::Header::Forward(fh))) => {
             let pw = fh.pathway();
@@ -313,6 +319,11 @@ fn mux_line(sink: &mut Sink, input: &[u8]) -> Option<Vec<u8>> {
             None
         }
         Ok((obs, inner, fw)) => {
+            let obs = if let Some(p) = obs.find("msg=PANIC:") {
+                sink.monitor_fail(&format!("panic:stun_msg:{}", &obs[p + 10..]), &format!("nat::msg::be_packet panicked on the STUN datagram {} (receive task of qtraversal/src/route.rs)", hex(input)));
+                sink.branch("mux:stun:PANIC");
+                format!("{}msg=PANIC", &obs[..p])
+            } else { obs };
             sink.branch(&format!("mux:{}", obs.split(' ').next().unwrap()));
             sink.line(&op, &obs);
             if let Some((consumed, strip)) = fw {
@@ -336,7 +347,10 @@ fn gen_mux(r: &mut Rng, sink: &mut Sink) -> Vec<u8> {
             b.extend((*r.pick(&[0u32, 0, 0, 1, 0x0100_0000])).to_be_bytes());
             b.extend([r.below(3) as u8, r.below(3) as u8]);
             b.extend((r.next_u64() as u16).to_be_bytes());
-            let n = r.below(40) as usize; b.extend(r.bytes(n));
+            // message: type, transaction id (sometimes cut short), attributes
+            b.extend((*r.pick(&[1u16, 0x101, 0x101, 2, 0x100])).to_be_bytes());
+            let n = *r.pick(&[16usize, 16, 16, 0, 1, 15, 17]); b.extend(r.bytes(n));
+            b.extend(gen_stun(r));
             let n = if r.chance(1, 3) { r.below(b.len() as u64 + 1) as usize } else { b.len() };
             b.truncate(n);
             sink.branch("gmux:stun"); b
@@ -380,7 +394,329 @@ pub fn run_mux(o: &Opts) {
     sink.finish(&o.stats, "C03mux: datagrams as the receive task of qtraversal/src/route.rs sees them: QUIC datagrams, STUN-looking headers (version 0 / non-0, truncated), forward headers with every flag combination (family, src/dst direct/agent) in front of a QUIC datagram (truncated or not), random bytes, QUIC datagrams with a STUN/forward-looking first byte; be_header + the split_off lengths compared with the model, then PacketReader::new(inner, 8); distinct by transcript hash");
 }
 
-pub const RUNS: &[(&str, fn(&Opts))] = &[("C03pkt", run_pkt), ("C03mux", run_mux)];
+/* ---------------------------------------------------------------- frames */
 
-#[allow(dead_code)]
-fn _unused(_: Bytes, _: Option<QuicError>, _: Option<FrameReader>) { let _ = <qbase::frame::PingFrame as GetFrameType>::frame_type; }
+fn ferr_name(e: &qbase::frame::error::Error) -> String {
+    use qbase::frame::error::Error as FE;
+    match e {
+        FE::NoFrames => "NoFrames".into(),
+        FE::IncompleteType(_) => "IncompleteType".into(),
+        FE::InvalidType(v) => format!("InvalidType:{}", v.into_u64()),
+        FE::WrongType(..) => "WrongType".into(),
+        FE::IncompleteFrame(..) => "IncompleteFrame".into(),
+        FE::ParseError(_, d) => format!("ParseError:{}", c05::nom_code(d)),
+    }
+}
+
+/// RFC 9000 section 12.4, written down independently of the code and of the model
+fn prescribed(e: &qbase::frame::error::Error) -> &'static str {
+    use qbase::frame::error::Error as FE;
+    match e {
+        FE::NoFrames | FE::WrongType(..) => "ProtocolViolation",
+        _ => "FrameEncoding",
+    }
+}
+
+/// `frames <pt> <hex>`: the loop of `read_plain_packet` (private to qconnection, replicated here: `for r in
+/// FrameReader::new(body, ty) { let (frame, ty) = r.map_err(QuicError::from)?; .. }`) on the real `FrameReader`.
+/// Monitors: no panic; every Ok step consumes >= 1 and <= remaining bytes; the loop ends within len + 1 steps;
+/// a decoding error becomes the connection error RFC 9000 12.4 prescribes.
+fn frames_line(sink: &mut Sink, pti: u64, input: &[u8]) {
+    let (pt, ptn) = c05::pkt_type(pti);
+    let op = format!("frames {} {}", ptn, hex(input));
+    sink.pending(&op);
+    let body = Bytes::copy_from_slice(input);
+    let r = catch(move || {
+        let mut items: Vec<String> = vec![];
+        let mut bad: Vec<(String, String)> = vec![];
+        let mut rd = FrameReader::new(body, pt);
+        let mut n = 0usize;
+        loop {
+            if n > input.len() + 1 { bad.push(("hang:FrameReader".into(), format!("FrameReader still yields after {} steps", n))); break; }
+            n += 1;
+            let before = rd.len();
+            match rd.next() {
+                None => { items.push("end".into()); break; }
+                Some(Ok((f, _ty))) => {
+                    let used = before.wrapping_sub(rd.len());
+                    if rd.len() >= before { bad.push(("consumed:FrameReader:zero".into(), format!("an Ok step left {} of {} bytes", rd.len(), before))); break; }
+                    items.push(format!("ok used={} {}", used, c05::show(&f)));
+                }
+                Some(Err(e)) => {
+                    let want = prescribed(&e);
+                    let name = ferr_name(&e);
+                    let q = QuicError::from(e);
+                    let kind = format!("{:?}", q.kind());
+                    if kind != want { bad.push((format!("errkind:{}:{}", name.split(':').next().unwrap(), kind), format!("{} is reported as {} but RFC 9000 12.4 prescribes {}", name, kind, want))); }
+                    items.push(format!("err {} kind={}", name, kind));
+                    break;
+                }
+            }
+        }
+        (items, bad)
+    });
+    match r {
+        Err(msg) => { sink.monitor_fail(&format!("panic:FrameReader:{}", site(&msg)), &format!("FrameReader panicked on {} ({}): {}", hex(input), ptn, msg)); sink.branch("frames:PANIC"); sink.line(&op, "PANIC"); }
+        Ok((items, bad)) => {
+            for (k, w) in bad { sink.monitor_fail(&k, &format!("{} [frames {} {}]", w, ptn, hex(input))); }
+            let last = items.last().cloned().unwrap_or_default();
+            sink.branch(&format!("frames:{}", last.split(' ').take(2).collect::<Vec<_>>().join("_").split(':').next().unwrap()));
+            sink.branch(&format!("frames:n={}", (items.len() - 1).min(6)));
+            sink.line(&op, &items.join(" | "));
+        }
+    }
+}
+
+fn gen_payload(r: &mut Rng, quiet: &mut Sink) -> Vec<u8> {
+    let n = r.range(1, 5);
+    let mut out = vec![];
+    for _ in 0..n {
+        let kind = r.below(c05::NKINDS);
+        let bytes = loop {
+            let (f, _, _) = c05::gen_frame(r, kind, quiet);
+            if c05::data_len(&f) > 200 { continue; }
+            if let Ok(e) = c05::encode(&f) { if e.bytes.len() < 400 { break e.bytes; } }
+        };
+        out.extend(bytes);
+    }
+    out
+}
+
+/// source-level probe (the function is private to qconnection and needs a live connection to call): does
+/// `read_plain_packet` refuse a packet without frames?
+fn empty_payload_probe(sink: &mut Sink) {
+    let repo = std::env::var("GMQ_REPO").unwrap_or_else(|_| "/repo".into());
+    let src = std::fs::read_to_string(format!("{}/qconnection/src/space.rs", repo)).unwrap_or_default();
+    let body = src.split("fn read_plain_packet").nth(1).unwrap_or("");
+    let body = body.split("\nfn ").next().unwrap_or("");
+    let rejects = body.contains("NoFrames");
+    // the replica of the loop on an empty body
+    let mut rd = FrameReader::new(Bytes::new(), c05::pkt_type(3).0);
+    let yields_nothing = rd.next().is_none();
+    let accepted = yields_nothing && !rejects;
+    if accepted {
+        sink.monitor_fail("noframes:accepted", "a packet whose decrypted payload is empty is accepted with zero frames: FrameReader yields nothing and read_plain_packet (qconnection/src/space.rs) never raises Error::NoFrames (RFC 9000 12.4: MUST be PROTOCOL_VIOLATION)");
+    }
+    sink.line("emptypayload", if accepted { "accepted" } else { "rejected" });
+}
+
+pub fn run_frm(o: &Opts) {
+    let mut sink = Sink::new_with_stats(&o.out, &o.stats);
+    let mut quiet = Sink::new("/dev/null");
+    sink.case("probe");
+    empty_payload_probe(&mut sink);
+    for i in 0..o.cases {
+        if let Some(k) = o.only_case { if k != i { continue; } }
+        let mut rng = Rng::new(o.seed, i);
+        sink.case(&format!("{}", i));
+        let base = gen_payload(&mut rng, &mut quiet);
+        for j in 0..3 {
+            let pti = if rng.chance(3, 5) { 3 } else { rng.below(6) };
+            let b = if j == 0 { base.clone() } else { mutate(&mut rng, &mut sink, &base) };
+            frames_line(&mut sink, pti, &b);
+        }
+        sink.nontrivial();
+    }
+    sink.finish(&o.stats, "C03frm: payloads of 1..5 frames produced by the C05 type-directed generator (27 kinds, boundary fields), unchanged / truncated / byte- and bit-mutated / extended / boundary-overwritten / random, read as Initial, Handshake, 0-RTT, 1-RTT (3/5), Retry, VN payload by the real FrameReader in the loop shape of read_plain_packet; every decoded value, consumed count, error variant and the QuicError kind compared exactly with the model; distinct by transcript hash");
+}
+
+/* ---------------------------------------------------------------- transport parameters */
+
+fn tp_line(sink: &mut Sink, which: &str, input: &[u8]) {
+    use qbase::param::{ClientParameters, ServerParameters};
+    let op = format!("{} {}", which, hex(input));
+    sink.pending(&op);
+    let inp = input.to_vec();
+    let w = which.to_string();
+    let r = catch(move || match w.as_str() {
+        "tpc" => ClientParameters::parse_from_bytes(&inp).map(|_| ()),
+        "tps" => ServerParameters::parse_from_bytes(&inp).map(|_| ()),
+        _ => ServerParameters::try_from_remembered_bytes(&inp).map(|_| ()),
+    });
+    let obs = match r {
+        Err(msg) => { sink.monitor_fail(&format!("panic:{}:{}", which, site(&msg)), &format!("transport-parameter parser panicked on {}: {}", hex(input), msg)); "PANIC".to_string() }
+        Ok(Ok(())) => "ok".to_string(),
+        Ok(Err(e)) => {
+            let kind = format!("{:?}", e.kind());
+            if kind != "TransportParameter" { sink.monitor_fail(&format!("errkind:{}:{}", which, kind), &format!("a transport-parameter parse error is reported as {} [{}]", kind, hex(input))); }
+            format!("err {}", kind)
+        }
+    };
+    sink.branch(&format!("{}:{}", which, obs.split(' ').next().unwrap()));
+    sink.line(&op, &obs);
+}
+
+fn gen_tp(r: &mut Rng) -> Vec<u8> {
+    const IDS: [u64; 24] = [0, 1, 2, 3, 4, 5, 6, 7, 8, 9, 10, 11, 12, 13, 14, 15, 16, 17, 0x20, 0x2ab2, 0xffee, 0xffef, 27, 0x3f];
+    let mut out = vec![];
+    let n = r.range(0, 6);
+    for k in 0..n {
+        let id = if k == 0 && r.chance(3, 4) { 15 } else { *r.pick(&IDS) };
+        out.extend(vput(id));
+        let val: Vec<u8> = match r.below(9) {
+            0 => vec![],
+            1 | 2 => vput(c05::bv(r)),
+            3 => r.bytes(16),
+            4 => { let n = r.below(24) as usize; r.bytes(n) }
+            5 => {
+                // preferred_address shape: 6 + 18 + cid length byte + cid + 16
+                let cl = *r.pick(&[0usize, 1, 8, 20, 21, 22]);
+                let mut v = r.bytes(24); v.push(cl as u8); v.extend(r.bytes(cl)); let tl = *r.pick(&[16usize, 16, 16, 15, 17]); v.extend(r.bytes(tl));
+                v
+            }
+            6 => { let mut v = vput(c05::bv(r)); v.push(0); v }
+            7 => { let n = *r.pick(&[19usize, 20, 21, 40]); r.bytes(n) }
+            _ => vput(r.below(100)),
+        };
+        if r.chance(1, 12) { out.extend(vput(val.len() as u64 + r.range(1, 3))); } else { out.extend(vput(val.len() as u64)); }
+        out.extend(val);
+    }
+    out
+}
+
+pub fn run_par(o: &Opts) {
+    let mut sink = Sink::new_with_stats(&o.out, &o.stats);
+    for i in 0..o.cases {
+        if let Some(k) = o.only_case { if k != i { continue; } }
+        let mut rng = Rng::new(o.seed, i);
+        sink.case(&format!("{}", i));
+        let base = gen_tp(&mut rng);
+        for j in 0..3 {
+            let b = if j == 0 { base.clone() } else { mutate(&mut rng, &mut sink, &base) };
+            let which = *rng.pick(&["tpc", "tps", "tpr"]);
+            tp_line(&mut sink, which, &b);
+        }
+        sink.nontrivial();
+    }
+    sink.finish(&o.stats, "C03par: blobs of 0..6 parameters (ids of the table + unknown/GREASE ids; values: empty, boundary varints, 16 bytes, 0..24 / 19,20,21,40 random bytes, preferred_address shapes with cid length 0,1,8,20,21,22 and token 15..17, varint + trailing byte; length field sometimes too long), unchanged / mutated / random, parsed as a client's, a server's and as remembered server parameters; outcome class ok | err(kind) | PANIC compared with the model; distinct by transcript hash");
+}
+
+/* ---------------------------------------------------------------- other decoders: monitors only */
+
+fn misc_line(sink: &mut Sink, entry: &str, input: &[u8]) {
+    use qbase::net::Family;
+    let op = format!("misc {} {}", entry, hex(input));
+    sink.pending(&op);
+    let inp = input.to_vec();
+    let e = entry.to_string();
+    // Ok(Some(rest_len)) | Ok(None) = error
+    let r = catch(move || -> Option<usize> {
+        let i = &inp[..];
+        match e.as_str() {
+            "stun" => qconnection::qtraversal::nat::msg::be_packet(i).ok().map(|(r, _)| r.len()),
+            "ep4d" => qbase::net::addr::be_endpoint_addr(i, 0, Family::V4).ok().map(|(r, _)| r.len()),
+            "ep4a" => qbase::net::addr::be_endpoint_addr(i, 1, Family::V4).ok().map(|(r, _)| r.len()),
+            "ep6d" => qbase::net::addr::be_endpoint_addr(i, 0, Family::V6).ok().map(|(r, _)| r.len()),
+            "ep6a" => qbase::net::addr::be_endpoint_addr(i, 1, Family::V6).ok().map(|(r, _)| r.len()),
+            "sock4" => qbase::net::be_socket_addr(i, Family::V4).ok().map(|(r, _)| r.len()),
+            "sock6" => qbase::net::be_socket_addr(i, Family::V6).ok().map(|(r, _)| r.len()),
+            "cid" => qbase::cid::be_connection_id(i).ok().map(|(r, _)| r.len()),
+            "varint" => qbase::varint::be_varint(i).ok().map(|(r, _)| r.len()),
+            "token" => qbase::token::be_reset_token(i).ok().map(|(r, _)| r.len()),
+            "pref" => qbase::param::preferred_address::be_preferred_address(i).ok().map(|(r, _)| r.len()),
+            "ptype" => qbase::packet::r#type::io::be_packet_type(i).ok().map(|(r, _)| r.len()),
+            "fwd" => tpk::be_forward_header(i).ok().map(|(r, _)| r.len()),
+            "pn1" | "pn2" | "pn3" | "pn4" => qbase::packet::take_pn_len(e.as_bytes()[2] - b'0')(i).ok().map(|(r, _)| r.len()),
+            _ => None,
+        }
+    });
+    let obs = match r {
+        Err(msg) => { sink.monitor_fail(&format!("panic:{}:{}", entry, site(&msg)), &format!("{} panicked on {}: {}", entry, hex(input), msg)); "PANIC".to_string() }
+        Ok(None) => "err".to_string(),
+        Ok(Some(rest)) => {
+            if rest > input.len() { sink.monitor_fail(&format!("oob:{}", entry), "rest longer than the input"); }
+            format!("ok used={}", input.len().wrapping_sub(rest))
+        }
+    };
+    sink.branch(&format!("misc:{}:{}", entry, obs.split(' ').next().unwrap()));
+    sink.line(&op, &obs);
+}
+
+const MISC: [&str; 18] = ["stun", "ep4d", "ep4a", "ep6d", "ep6a", "sock4", "sock6", "cid", "varint", "token", "pref", "ptype", "fwd", "pn1", "pn2", "pn3", "pn4", "stun"];
+
+fn gen_stun(r: &mut Rng) -> Vec<u8> {
+    // request/response bit + 12-byte txid-looking prefix + TLV-looking attributes
+    let n0 = r.range(0, 20) as usize; let mut b = r.bytes(n0);
+    for _ in 0..r.below(5) {
+        b.extend((r.below(16) as u16).to_be_bytes());
+        let n = *r.pick(&[0usize, 1, 4, 6, 8, 18, 20, 36]);
+        b.extend(((if r.chance(1, 8) { n + 3 } else { n }) as u16).to_be_bytes());
+        b.extend(r.bytes(n));
+    }
+    b
+}
+
+pub fn run_misc(o: &Opts) {
+    let mut sink = Sink::new_with_stats(&o.out, &o.stats);
+    for i in 0..o.cases {
+        if let Some(k) = o.only_case { if k != i { continue; } }
+        let mut rng = Rng::new(o.seed, i);
+        sink.case(&format!("{}", i));
+        for _ in 0..4 {
+            let e = MISC[(rng.below(MISC.len() as u64)) as usize];
+            let b = match rng.below(4) {
+                0 if e == "stun" => gen_stun(&mut rng),
+                0 | 1 => { let n = rng.below(48) as usize; rng.bytes(n) }
+                2 => { let mut v = vec![*rng.pick(&[0u8, 1, 19, 20, 21, 255, 0x40, 0x80, 0xc0])]; let n = rng.below(44) as usize; v.extend(rng.bytes(n)); v }
+                _ => gen_stun(&mut rng),
+            };
+            misc_line(&mut sink, e, &b);
+        }
+        sink.nontrivial();
+    }
+    sink.finish(&o.stats, "C03misc: decoders NOT modelled, monitored only (no panic, terminates, consumed <= len): qtraversal nat::msg::be_packet (STUN), be_endpoint_addr x family x relay, be_socket_addr, be_connection_id, be_varint, be_reset_token, be_preferred_address, be_packet_type, be_forward_header, take_pn_len(1..4) on random / TLV-shaped / boundary-first-byte inputs");
+}
+
+/* ---------------------------------------------------------------- exhaustive small inputs */
+
+fn x_one(s: &mut Sink, b: &[u8], len: usize) {
+    pkt_line(s, 8, b);
+    all_line(s, 8, b);
+    let _ = mux_line(s, b);
+    if len <= 1 { for d in 0..=20 { pkt_line(s, d, b); all_line(s, d, b); } }
+    if len <= 2 {
+        for pti in 0..4 { frames_line(s, pti, b); }
+        tp_line(s, "tpc", b);
+        tp_line(s, "tps", b);
+        tp_line(s, "tpr", b);
+    } else {
+        frames_line(s, 3, b);
+        frames_line(s, 0, b);
+        tp_line(s, "tps", b);
+    }
+}
+
+pub fn run_x(o: &Opts) {
+    let mut sink = Sink::new_with_stats(&o.out, &o.stats);
+    let mut dn = Sink::new("/dev/null");
+    let maxlen = if o.thorough() { 3 } else { 2 };
+    let mut id = 0u64;
+    let mut total = 0u64;
+    let mut sampled = 0u64;
+    for len in 0..=maxlen {
+        let count: u64 = 1 << (8 * len);
+        for v in 0..count {
+            let b: Vec<u8> = (0..len).map(|k| (v >> (8 * (len - 1 - k))) as u8).collect();
+            // 3-byte inputs: all of them run (monitors), a 1/16 sample is also written to the transcript
+            let sample = len < 3 || v % 16 == 5;
+            total += 1;
+            if sample {
+                if sampled % 64 == 0 { id += 1; sink.case(&format!("{}", id)); }
+                sampled += 1;
+                x_one(&mut sink, &b, len);
+            } else {
+                if total % 64 == 0 { dn.case("x"); }
+                let before = dn.monitor_failures.len();
+                x_one(&mut dn, &b, len);
+                for m in dn.monitor_failures[before..].to_vec() {
+                    sink.monitor_fail(m["key"].as_str().unwrap_or("?"), &format!("{} [exhaustive input {}]", m["what"].as_str().unwrap_or("?"), hex(&b)));
+                }
+            }
+        }
+    }
+    sink.nontrivial();
+    sink.note("exhaustive_inputs", serde_json::json!(total));
+    sink.finish(&o.stats, "C03x: EVERY input of length 0..2 (quick) / 0..3 (thorough; all run under the monitors, 1/16 of the 3-byte ones also compared with the model) for be_packet / PacketReader (dcid 8; all of 0..20 for length <= 1), the demultiplexer, the FrameReader loop (I/H/0/1; 1-RTT and Initial for 3-byte inputs), and the transport-parameter parsers");
+}
+
+pub const RUNS: &[(&str, fn(&Opts))] = &[("C03pkt", run_pkt), ("C03mux", run_mux), ("C03frm", run_frm), ("C03par", run_par), ("C03misc", run_misc), ("C03x", run_x)];
